@@ -825,3 +825,469 @@ Proof.
 Qed.
 
 End Evaluator.
+
+(* ------------------------------------------------------------------ 4. every date *)
+Section EveryDate.
+Open Scope R_scope.
+Ltac toR := change (car RA) with R in *;
+  repeat match goal with
+         | |- context [eval RA ?x ?e] =>
+             let r := fresh "r" in let H := fresh "Hr" in remember (eval RA x e : R) as r eqn:H in *; clear H
+         | _ : context [eval RA ?x ?e] |- _ =>
+             let r := fresh "r" in let H := fresh "Hr" in remember (eval RA x e : R) as r eqn:H in *; clear H
+         end.
+Notation expr := (expr RA).
+Variable P : nat -> Z -> R.                 (* a steady path: value of quantity q at date t *)
+
+Definition flat_q (q : nat) : Prop := forall t, P q t = P q 0%Z.
+Definition arith_q (q : nat) : Prop := exists l c, forall t, P q t = l + c * IZR t.
+Definition geom_q (q : nat) : Prop := exists l c, 0 < l /\ 0 < c /\ forall t, P q t = l * Rpower c (IZR t).
+
+(* (a) flat paths: every equation, every date *)
+Theorem every_date_flat (e : expr) :
+  (forall q s, In (q, s) (tokens RA e) -> flat_q q) ->
+  forall t, eval RA (at_date P t) e = eval RA (at_date P 0) e.
+Proof.
+  intros H t. apply eval_ext. intros q s Hqs. unfold at_date. rewrite (H q s Hqs). symmetry. apply (H q s Hqs).
+Qed.
+
+(* (b) residuals affine in time *)
+Definition time_const (e : expr) : Prop := forall q s, In (q, s) (tokens RA e) -> flat_q q.
+Definition affine_fun (f : Z -> R) : Prop := exists a b, forall t, f t = a + b * IZR t.
+
+Inductive affine_expr : expr -> Prop :=
+| af_const e : time_const e -> affine_expr e
+| af_var q s : arith_q q -> affine_expr (EVar q s)
+| af_lnvar q s : geom_q q -> affine_expr (ELn (EVar q s))
+| af_neg a : affine_expr a -> affine_expr (ENeg a)
+| af_add a b : affine_expr a -> affine_expr b -> affine_expr (EAdd a b)
+| af_sub a b : affine_expr a -> affine_expr b -> affine_expr (ESub a b)
+| af_mul_l a b : time_const a -> affine_expr b -> affine_expr (EMul a b)
+| af_mul_r a b : affine_expr a -> time_const b -> affine_expr (EMul a b)
+| af_div a b : affine_expr a -> time_const b -> affine_expr (EDiv a b).
+
+Lemma time_const_eval e : time_const e -> forall t, eval RA (at_date P t) e = eval RA (at_date P 0) e.
+Proof. intros H. now apply every_date_flat. Qed.
+
+Lemma affine_expr_affine e : affine_expr e -> affine_fun (fun t => eval RA (at_date P t) e).
+Proof.
+  induction 1 as [e H|q s (l & c & H)|q s (l & c & Hl & Hc & H)|a _ (x & y & IH)
+                 |a b _ (x & y & IHa) _ (x' & y' & IHb)|a b _ (x & y & IHa) _ (x' & y' & IHb)
+                 |a b Ha _ (x & y & IHb)|a b _ (x & y & IHa) Hb|a b _ (x & y & IHa) Hb].
+  - exists (eval RA (at_date P 0) e), 0. intros t. rewrite time_const_eval by exact H. toR; ring.
+  - exists (l + c * IZR s), c. intros t. cbn. unfold at_date. rewrite H, plus_IZR. toR; ring.
+  - exists (Rln l + IZR s * Rln c), (Rln c). intros t. cbn. unfold at_date. rewrite H.
+    rewrite ln_mult by (try apply exp_pos; assumption). unfold Rpower. rewrite ln_exp, plus_IZR. toR; ring.
+  - exists (- x), (- y). intros t. cbn. rewrite IH. toR; ring.
+  - exists (x + x'), (y + y'). intros t. cbn. rewrite IHa, IHb. toR; ring.
+  - exists (x - x'), (y - y'). intros t. cbn. rewrite IHa, IHb. toR; ring.
+  - exists (eval RA (at_date P 0) a * x), (eval RA (at_date P 0) a * y). intros t. cbn.
+    rewrite IHb, (time_const_eval a Ha). toR; ring.
+  - exists (x * eval RA (at_date P 0) b), (y * eval RA (at_date P 0) b). intros t. cbn.
+    rewrite IHa, (time_const_eval b Hb). toR; ring.
+  - exists (x / eval RA (at_date P 0) b), (y / eval RA (at_date P 0) b). intros t. cbn.
+    rewrite IHa, (time_const_eval b Hb). unfold Rdiv. toR; ring.
+Qed.
+
+Lemma affine_two_dates_exact f : affine_fun f -> f 0%Z = 0 -> f 1%Z = 0 -> forall t, f t = 0.
+Proof.
+  intros (a & b & H) H0 H1 t. rewrite H in *. simpl in H0, H1. assert (a = 0) by lra. assert (b = 0) by lra. subst. toR; ring.
+Qed.
+
+Lemma affine_two_dates_tol f tol : affine_fun f -> Rabs (f 0%Z) <= tol -> Rabs (f 1%Z) <= tol ->
+  forall t, Rabs (f t) <= (1 + 2 * Rabs (IZR t)) * tol.
+Proof.
+  intros (a & b & H) H0 H1 t. rewrite H in *. simpl in H0, H1.
+  replace (a + b * 0) with a in H0 by ring. replace (a + b * 1) with (a + b) in H1 by ring.
+  assert (Hb : Rabs b <= 2 * tol).
+  { replace b with ((a + b) - a) by ring. eapply Rle_trans; [apply Rabs_triang|]. rewrite Rabs_Ropp. lra. }
+  eapply Rle_trans; [apply Rabs_triang|]. rewrite Rabs_mult.
+  pose proof (Rabs_pos (IZR t)). pose proof (Rabs_pos b).
+  assert (Rabs b * Rabs (IZR t) <= 2 * tol * Rabs (IZR t)) by (apply Rmult_le_compat_r; lra). lra.
+Qed.
+
+(* THEOREM every_date (affine): an equation whose residual is affine in time on the path and which holds at the
+   two dates the solver evaluates holds at every date (exactly; and with a tolerance growing linearly) *)
+Theorem every_date_affine e : affine_expr e ->
+  eval RA (at_date P 0) e = 0 -> eval RA (at_date P 1) e = 0 -> forall t, eval RA (at_date P t) e = 0.
+Proof. intros H. apply (affine_two_dates_exact (fun t => eval RA (at_date P t) e)). now apply affine_expr_affine. Qed.
+
+Theorem every_date_affine_tol e tol : affine_expr e ->
+  Rabs (eval RA (at_date P 0) e) <= tol -> Rabs (eval RA (at_date P 1) e) <= tol ->
+  forall t, Rabs (eval RA (at_date P t) e) <= (1 + 2 * Rabs (IZR t)) * tol.
+Proof. intros H. apply (affine_two_dates_tol (fun t => eval RA (at_date P t) e)). now apply affine_expr_affine. Qed.
+
+(* (c) log-affine: both sides are monomials in positive constants, flat positive quantities and log-variables *)
+Definition geom_fun (f : Z -> R) : Prop := exists a b, forall t, f t = Rexp (a + b * IZR t).
+
+Inductive mono_expr : expr -> Prop :=
+| mo_const (c : R) : 0 < c -> mono_expr (@EConst RA c)
+| mo_flat q s : flat_q q -> 0 < P q 0%Z -> mono_expr (EVar q s)
+| mo_var q s : geom_q q -> mono_expr (EVar q s)
+| mo_mul a b : mono_expr a -> mono_expr b -> mono_expr (EMul a b)
+| mo_div a b : mono_expr a -> mono_expr b -> mono_expr (EDiv a b)
+| mo_pow a b : mono_expr a -> time_const b -> mono_expr (EPow a b)
+| mo_exp a : affine_expr a -> mono_expr (EExp a).
+
+Lemma mono_expr_geom e : mono_expr e -> geom_fun (fun t => eval RA (at_date P t) e).
+Proof.
+  induction 1 as [c Hc|q s Hf Hp|q s (l & c & Hl & Hc & H)|a b _ (x & y & IHa) _ (x' & y' & IHb)
+                 |a b _ (x & y & IHa) _ (x' & y' & IHb)|a b _ (x & y & IHa) Hb|a Ha].
+  - exists (Rln c), 0. intros t. cbn. rewrite Rmult_0_l, Rplus_0_r. now rewrite exp_ln.
+  - exists (Rln (P q 0%Z)), 0. intros t. cbn. unfold at_date. rewrite Hf, Rmult_0_l, Rplus_0_r. now rewrite exp_ln.
+  - exists (Rln l + IZR s * Rln c), (Rln c). intros t. cbn. unfold at_date. rewrite H. unfold Rpower.
+    rewrite <- (exp_ln l) at 1 by exact Hl. rewrite <- exp_plus. f_equal. rewrite plus_IZR. toR; ring.
+  - exists (x + x'), (y + y'). intros t. cbn. rewrite IHa, IHb, <- exp_plus. f_equal. toR; ring.
+  - exists (x - x'), (y - y'). intros t. cbn. rewrite IHa, IHb. unfold Rdiv. rewrite <- exp_Ropp, <- exp_plus. f_equal. toR; ring.
+  - exists (eval RA (at_date P 0) b * x), (eval RA (at_date P 0) b * y). intros t. cbn.
+    rewrite IHa, (time_const_eval b Hb). unfold Rpower. rewrite ln_exp. f_equal. toR; ring.
+  - destruct (affine_expr_affine a Ha) as (x & y & H). exists x, y. intros t. cbn. now rewrite H.
+Qed.
+
+Lemma geom_two_dates f h : geom_fun f -> geom_fun h -> f 0%Z = h 0%Z -> f 1%Z = h 1%Z -> forall t, f t = h t.
+Proof.
+  intros (a & b & Hf) (a' & b' & Hh) H0 H1 t. rewrite Hf, Hh in *. simpl in H0, H1.
+  apply exp_inv in H0. apply exp_inv in H1. assert (a = a') by lra. assert (b = b') by lra. subst. reflexivity.
+Qed.
+
+(* THEOREM every_date (log-affine): lhs = rhs with both sides monomials on geometric paths; irispie's residual of
+   `lhs = rhs` is -(lhs) + rhs *)
+Theorem every_date_log_affine a b : mono_expr a -> mono_expr b ->
+  eval RA (at_date P 0) (EAdd (ENeg a) b) = 0 -> eval RA (at_date P 1) (EAdd (ENeg a) b) = 0 ->
+  forall t, eval RA (at_date P t) (EAdd (ENeg a) b) = 0.
+Proof.
+  intros Ha Hb H0 H1 t. cbn in *.
+  rewrite (geom_two_dates _ _ (mono_expr_geom a Ha) (mono_expr_geom b Hb)); [toR; ring|toR; lra|toR; lra].
+Qed.
+
+End EveryDate.
+
+(* "at every date" is NOT a theorem of the algorithm for general nonlinear growth models: a residual that is a sum
+   of three geometric terms can vanish at dates 0 and 1 and not at date 2 (so the general statement is only
+   available for the two evaluated dates: every_date_partial below) *)
+Lemma two_dates_do_not_suffice :
+  exists f : Z -> R, (exists a b c : R, forall t, f t = (a * Rpower 1 (IZR t) + b * Rpower 2 (IZR t) + c * Rpower 4 (IZR t))%R)
+                     /\ f 0%Z = 0%R /\ f 1%Z = 0%R /\ f 2%Z <> 0%R.
+Proof.
+  exists (fun t => 2 * Rpower 1 (IZR t) + (-3) * Rpower 2 (IZR t) + 1 * Rpower 4 (IZR t))%R.
+  split; [exists 2%R, (-3)%R, 1%R; reflexivity|].
+  assert (P0 : forall x, (0 < x)%R -> Rpower x 0 = 1%R) by (intros; apply Rpower_O; assumption).
+  assert (P1 : forall x, (0 < x)%R -> Rpower x 1 = x) by (intros; apply Rpower_1; assumption).
+  assert (P2 : forall x, (0 < x)%R -> Rpower x 2 = (x * x)%R).
+  { intros x Hx. replace 2%R with (1 + 1)%R by ring. rewrite Rpower_plus, P1 by exact Hx. reflexivity. }
+  repeat split.
+  - rewrite !P0 by lra. ring.
+  - rewrite !P1 by lra. ring.
+  - rewrite !P2 by lra. lra.
+Qed.
+
+(* ------------------------------------------------------------------ 5. block by block = jointly *)
+Section Blockwise.
+Variables (state eqn : Type).
+Variable holds : state -> eqn -> Prop.              (* equation e holds in state s *)
+Variable same_on : state -> state -> nat -> Prop.   (* s and s' agree on quantity q *)
+Variable qids_of : eqn -> list nat.                 (* the quantities an equation mentions *)
+Variable inv : state -> Prop.                       (* an invariant of the loop (e.g. "changes are flat") *)
+Hypothesis holds_ext : forall s s' e, (forall q, In q (qids_of e) -> same_on s s' q) -> holds s e -> holds s' e.
+
+(* one block: its equations, the quantities it solves for, and what solving it does to the state (the solver's
+   final guess is part of [bstep]) *)
+Record blk := mkBlk { beqs : list eqn; bqids : list nat; bstep : state -> state }.
+
+(* a block step only writes the block's own quantities, and afterwards the block's equations hold *)
+Definition good_block (b : blk) : Prop :=
+  forall s, inv s ->
+    inv (bstep b s) /\
+    (forall q, ~ In q (bqids b) -> same_on s (bstep b s) q) /\
+    (forall e, In e (beqs b) -> holds (bstep b s) e).
+
+(* block-triangular order: no equation mentions a quantity that a LATER block solves for *)
+Fixpoint triangular (bs : list blk) : Prop :=
+  match bs with
+  | [] => True
+  | b :: r => (forall e, In e (beqs b) -> forall b', In b' r -> forall q, In q (bqids b') -> ~ In q (qids_of e))
+              /\ triangular r
+  end.
+
+Definition run_blocks (bs : list blk) (s : state) : state := fold_left (fun s b => bstep b s) bs s.
+
+Lemma run_blocks_inv bs s : (forall b, In b bs -> good_block b) -> inv s -> inv (run_blocks bs s).
+Proof.
+  revert s; induction bs as [|b r IH]; intros s G Hs; simpl; auto.
+  apply IH; [intros; apply G; simpl; auto|]. apply (G b); simpl; auto.
+Qed.
+
+Lemma later_blocks_preserve bs s e :
+  (forall b, In b bs -> good_block b) -> inv s ->
+  (forall b', In b' bs -> forall q, In q (bqids b') -> ~ In q (qids_of e)) ->
+  holds s e -> holds (run_blocks bs s) e.
+Proof.
+  revert s; induction bs as [|b r IH]; intros s G Hs Hd H; simpl; auto.
+  destruct (G b (or_introl eq_refl) s Hs) as (Hi & Hloc & _).
+  apply IH; auto.
+  - intros; apply G; simpl; auto.
+  - intros; eapply Hd; simpl; eauto.
+  - apply holds_ext with s; auto. intros q Hq. apply Hloc. intros Hin. exact (Hd b (or_introl eq_refl) q Hin Hq).
+Qed.
+
+(* THEOREM blockwise_equals_joint: after solving the blocks one after another in a block-triangular order, writing
+   the result back after each block, ALL equations of ALL blocks hold in the final state *)
+Theorem blockwise_equals_joint bs s0 :
+  (forall b, In b bs -> good_block b) -> triangular bs -> inv s0 ->
+  forall b e, In b bs -> In e (beqs b) -> holds (run_blocks bs s0) e.
+Proof.
+  revert s0; induction bs as [|b0 r IH]; intros s0 G T Hs b e Hb He; simpl in *; [contradiction|].
+  destruct T as [T0 T]. destruct (G b0 (or_introl eq_refl) s0 Hs) as (Hi & _ & Hsolve).
+  destruct Hb as [<-|Hb].
+  - apply later_blocks_preserve; auto.
+    + intros b' Hb' q Hq. exact (T0 e He b' Hb' q Hq).
+  - apply IH with b; auto.
+Qed.
+
+End Blockwise.
+
+(* ------------------------------------------------------------------ 6. linear steady state *)
+Section Linear.
+Open Scope R_scope.
+
+Fixpoint rdot (r x : list R) : R :=
+  match r, x with
+  | a :: r', b :: x' => a * b + rdot r' x'
+  | _, _ => 0
+  end.
+
+Lemma dot_acc r x acc :
+  fold_left (fun (a : R) (ab : R * R) => a + fst ab * snd ab) (combine r x) acc = acc + rdot r x.
+Proof.
+  revert x acc; induction r as [|a r IH]; intros [|b x] acc; simpl; try ring.
+  rewrite IH. ring.
+Qed.
+
+Lemma dot_rdot r x : dot RA r x = rdot r x.
+Proof. unfold dot. cbn [add mul ofZ RA car]. rewrite dot_acc. simpl. ring. Qed.
+
+Lemma rdot_app r1 r2 x1 x2 : length r1 = length x1 -> rdot (r1 ++ r2) (x1 ++ x2) = rdot r1 x1 + rdot r2 x2.
+Proof.
+  revert x1; induction r1 as [|a r IH]; intros [|b x] H; simpl in *; try lia; try ring.
+  rewrite IH by lia. ring.
+Qed.
+
+Lemma rdot_map2_lin (f : R -> R -> R) ca cb ra rb x :
+  (forall a b, f a b = ca * a + cb * b) -> length ra = length rb ->
+  rdot (map2 f ra rb) x = ca * rdot ra x + cb * rdot rb x.
+Proof.
+  intros Hf. revert rb x; induction ra as [|a ra IH]; intros [|b rb] [|y x] H; simpl in *; try lia; try ring.
+  rewrite IH, Hf by lia. ring.
+Qed.
+
+Lemma rdot_map_lin (f : R -> R) c r x : (forall a, f a = c * a) -> rdot (map f r) x = c * rdot r x.
+Proof.
+  intros Hf. revert x; induction r as [|a r IH]; intros [|y x]; simpl; try ring. rewrite IH, Hf. ring.
+Qed.
+
+Definition vaxpy (x d : list R) (t : R) : list R := map2 (fun a b => a + t * b) x d.
+
+Lemma rdot_vaxpy r x d t : length x = length d -> rdot r (vaxpy x d t) = rdot r x + t * rdot r d.
+Proof.
+  unfold vaxpy. revert x d; induction r as [|a r IH]; intros [|y x] [|e d] H; simpl in *; try lia; try ring.
+  rewrite IH by lia. ring.
+Qed.
+
+Lemma Forall_nth_R (Q : R -> Prop) l i : Forall Q l -> (i < length l)%nat -> Q (nth i l 0).
+Proof. intros H Hi. rewrite Forall_forall in H. apply H. now apply nth_In. Qed.
+
+(* the generated entries of the stacked systems are linear combinations *)
+#[local] Hint Unfold gen_lin_AB11 gen_lin_AB12 gen_lin_AB21 gen_lin_AB22 gen_lin_FF11 gen_lin_FF12 gen_lin_FF21 gen_lin_FF22
+  gen_lin_GG11 gen_lin_GG12 gen_lin_GG21 gen_lin_GG22 gen_lin_flat_lhs gen_lin_flat_rhs gen_lin_k : lingen.
+Ltac lin := autounfold with lingen; cbn; change (car RA) with R; ring.
+Lemma AB11_lin (a b : R) : gen_lin_AB11 RA a b = 1 * a + 1 * b.      Proof. lin. Qed.
+Lemma AB12_lin (a b : R) : gen_lin_AB12 RA a b = 0 * a + (-1) * b.   Proof. lin. Qed.
+Lemma AB21_lin (a b : R) : gen_lin_AB21 RA a b = 1 * a + 1 * b.      Proof. lin. Qed.
+Lemma AB22_lin (a b : R) : gen_lin_AB22 RA a b = 1 * a + 0 * b.      Proof. lin. Qed.
+Lemma FF11_lin (f : R) : gen_lin_FF11 RA f = 1 * f.  Proof. lin. Qed.
+Lemma FF12_lin (f : R) : gen_lin_FF12 RA f = 0 * f.  Proof. lin. Qed.
+Lemma FF21_lin (f : R) : gen_lin_FF21 RA f = 1 * f.  Proof. lin. Qed.
+Lemma FF22_lin (f : R) : gen_lin_FF22 RA f = 1 * f.  Proof. lin. Qed.
+Lemma GG11_lin (f : R) : gen_lin_GG11 RA f = 1 * f.  Proof. lin. Qed.
+Lemma GG12_lin (f : R) : gen_lin_GG12 RA f = 0 * f.  Proof. lin. Qed.
+Lemma GG21_lin (f : R) : gen_lin_GG21 RA f = 1 * f.  Proof. lin. Qed.
+Lemma GG22_lin (f : R) : gen_lin_GG22 RA f = 1 * f.  Proof. lin. Qed.
+Lemma flat_lhs_lin (a b : R) : gen_lin_flat_lhs RA a b = (-1) * a + (-1) * b.  Proof. lin. Qed.
+Lemma flat_rhs_id (c : R) : gen_lin_flat_rhs RA c = c.  Proof. reflexivity. Qed.
+(* the second block row is the system one period later *)
+Lemma lin_k_is_shift : gen_lin_k = gen_nonflat_steady_shift.  Proof. reflexivity. Qed.
+
+Definition zeros (l : list R) : Prop := Forall (fun r => r = 0) l.
+
+(* entries of the residual vectors *)
+Lemma nth_vsub a b i : (i < length a)%nat -> (i < length b)%nat -> nth i (vsub RA a b) 0 = nth i a 0 - nth i b 0.
+Proof. intros. unfold vsub. now rewrite nth_map2 with (da := 0) (db := 0). Qed.
+Lemma nth_vadd a b i : (i < length a)%nat -> (i < length b)%nat -> nth i (vadd RA a b) 0 = nth i a 0 + nth i b 0.
+Proof. intros. unfold vadd. now rewrite nth_map2 with (da := 0) (db := 0). Qed.
+Lemma nth_matvec M x i : (i < length M)%nat -> nth i (matvec RA M x) 0 = rdot (nth i M []) x.
+Proof. intros. unfold matvec. rewrite nth_map_d with (d' := []) by assumption. apply dot_rdot. Qed.
+Lemma nth_negm M i : (i < length M)%nat -> nth i (negm RA M) [] = map Ropp (nth i M []).
+Proof. intros. unfold negm. now rewrite nth_map_d with (d' := []). Qed.
+Lemma rdot_opp r x : rdot (map Ropp r) x = - rdot r x.
+Proof. rewrite rdot_map_lin with (c := -1) by (intros; ring). ring. Qed.
+
+Ltac cR := change (car RA) with R in *.
+Ltac lia' := cR; lia.
+
+Section Transition.
+Variables (Am Bm : list (list R)) (Cv xi dxi : list R).
+Let n := length Am.
+Let m := length xi.
+Hypothesis HB : length Bm = n.
+Hypothesis HC : length Cv = n.
+Hypothesis Hd : length dxi = m.
+Hypothesis HrowsA : forall i, (i < n)%nat -> length (nth i Am []) = m.
+Hypothesis HrowsB : forall i, (i < n)%nat -> length (nth i Bm []) = m.
+
+Lemma length_stack2 f11 f12 f21 f22 : length (stack2 RA f11 f12 f21 f22 Am Bm) = (n + n)%nat.
+Proof. unfold stack2. rewrite app_length, !length_map2. cR. cR. fold n. rewrite HB. lia. Qed.
+
+Lemma nth_stack2_top f11 f12 f21 f22 i : (i < n)%nat ->
+  nth i (stack2 RA f11 f12 f21 f22 Am Bm) [] = map2 f11 (nth i Am []) (nth i Bm []) ++ map2 f12 (nth i Am []) (nth i Bm []).
+Proof.
+  intros Hi. unfold stack2. rewrite app_nth1 by (rewrite length_map2; cR; fold n; lia).
+  rewrite nth_map2 with (da := []) (db := []); auto; cR; fold n; lia.
+Qed.
+Lemma nth_stack2_bottom f11 f12 f21 f22 i : (i < n)%nat ->
+  nth (n + i) (stack2 RA f11 f12 f21 f22 Am Bm) [] = map2 f21 (nth i Am []) (nth i Bm []) ++ map2 f22 (nth i Am []) (nth i Bm []).
+Proof.
+  intros Hi. unfold stack2. rewrite app_nth2 by (rewrite length_map2; cR; fold n; lia).
+  rewrite length_map2. cR. fold n. rewrite HB. replace (n + i - Nat.min n n)%nat with i by lia'.
+  rewrite nth_map2 with (da := []) (db := []); auto; cR; fold n; lia.
+Qed.
+
+(* THEOREM (linear, growth): if lstsq returned an exact solution of the stacked system then the transition
+   equations  A xi_t + B xi_{t-1} + C = 0  hold on the path xi_t = Xi + t dXi at EVERY date t *)
+Theorem linear_nonflat_transition :
+  zeros (vsub RA (matvec RA (negm RA (lin_AB RA Am Bm)) (xi ++ dxi)) (Cv ++ Cv)) ->
+  forall (t : Z) i, (i < n)%nat ->
+    rdot (nth i Am []) (vaxpy xi dxi (IZR t)) + rdot (nth i Bm []) (vaxpy xi dxi (IZR t - 1)) + nth i Cv 0 = 0.
+Proof.
+  intros Hz t i Hi.
+  assert (Lm : length (matvec RA (negm RA (lin_AB RA Am Bm)) (xi ++ dxi)) = (n + n)%nat).
+  { unfold matvec, negm, lin_AB. now rewrite !map_length, length_stack2. }
+  assert (Lc : length (Cv ++ Cv) = (n + n)%nat) by (rewrite app_length; lia').
+  assert (Lv : length (vsub RA (matvec RA (negm RA (lin_AB RA Am Bm)) (xi ++ dxi)) (Cv ++ Cv)) = (n + n)%nat).
+  { unfold vsub. rewrite length_map2. lia'. }
+  pose proof (Forall_nth_R _ _ i Hz ltac:(lia')) as E0. pose proof (Forall_nth_R _ _ (n + i)%nat Hz ltac:(lia')) as E1.
+  cbv beta in E0, E1.
+  rewrite nth_vsub, nth_matvec, nth_negm in E0, E1
+    by (try (unfold negm; rewrite map_length); try (unfold lin_AB; rewrite length_stack2); lia').
+  unfold lin_AB in E0, E1. rewrite nth_stack2_top in E0 by exact Hi. rewrite nth_stack2_bottom in E1 by exact Hi.
+  rewrite rdot_opp in E0, E1.
+  assert (La : length (nth i Am []) = length (nth i Bm [])) by (rewrite HrowsA, HrowsB; auto).
+  rewrite rdot_app in E0, E1 by (rewrite length_map2, HrowsA, HrowsB by exact Hi; fold m; lia').
+  rewrite (rdot_map2_lin _ _ _ _ _ _ AB11_lin La), (rdot_map2_lin _ _ _ _ _ _ AB12_lin La) in E0.
+  rewrite (rdot_map2_lin _ _ _ _ _ _ AB21_lin La), (rdot_map2_lin _ _ _ _ _ _ AB22_lin La) in E1.
+  rewrite app_nth1 in E0 by lia'. rewrite app_nth2 in E1 by lia'. replace (n + i - length Cv)%nat with i in E1 by lia'.
+  rewrite !rdot_vaxpy by (fold m; lia').
+  set (p := rdot (nth i Am []) xi) in *. set (q := rdot (nth i Bm []) xi) in *.
+  set (r := rdot (nth i Am []) dxi) in *. set (u := rdot (nth i Bm []) dxi) in *.
+  set (c := nth i Cv 0) in *.
+  assert (Hc : c = - (p + q) + u) by lra. assert (Hr : r = - u) by lra. rewrite Hc, Hr. ring.
+Qed.
+
+(* flat: (A + B) Xi = -C  means  A Xi + B Xi + C = 0 *)
+Theorem linear_flat_transition :
+  zeros (vsub RA (matvec RA (map2 (map2 (gen_lin_flat_lhs RA)) Am Bm) xi) (map (gen_lin_flat_rhs RA) Cv)) ->
+  forall i, (i < n)%nat -> rdot (nth i Am []) xi + rdot (nth i Bm []) xi + nth i Cv 0 = 0.
+Proof.
+  intros Hz i Hi.
+  assert (Lm : length (matvec RA (map2 (map2 (gen_lin_flat_lhs RA)) Am Bm) xi) = n).
+  { unfold matvec. rewrite map_length, length_map2. fold n. lia'. }
+  assert (Lv : length (vsub RA (matvec RA (map2 (map2 (gen_lin_flat_lhs RA)) Am Bm) xi) (map (gen_lin_flat_rhs RA) Cv)) = n).
+  { unfold vsub. rewrite length_map2, map_length. lia'. }
+  pose proof (Forall_nth_R _ _ i Hz ltac:(lia')) as E0. cbv beta in E0.
+  rewrite nth_vsub, nth_matvec in E0 by (try rewrite map_length; try rewrite length_map2; cR; fold n; lia).
+  rewrite nth_map2 with (da := []) (db := []) in E0 by (cR; fold n; lia).
+  rewrite nth_map_d with (d' := 0) in E0 by lia'. rewrite flat_rhs_id in E0.
+  assert (La : length (nth i Am []) = length (nth i Bm [])) by (rewrite HrowsA, HrowsB; auto).
+  rewrite (rdot_map2_lin _ _ _ _ _ _ flat_lhs_lin La) in E0. lra.
+Qed.
+
+End Transition.
+
+Section Measurement.
+Variables (Fm Gm : list (list R)) (Hv xi dxi y dy : list R).
+Let n := length Fm.
+Hypothesis HG : length Gm = n.
+Hypothesis HH : length Hv = n.
+Hypothesis Hdx : length dxi = length xi.
+Hypothesis Hdy : length dy = length y.
+Hypothesis HrowsF : forall i, (i < n)%nat -> length (nth i Fm []) = length y.
+Hypothesis HrowsG : forall i, (i < n)%nat -> length (nth i Gm []) = length xi.
+
+Lemma length_stack1 (M : list (list R)) f11 f12 f21 f22 : length (stack1 RA f11 f12 f21 f22 M) = (length M + length M)%nat.
+Proof. unfold stack1. now rewrite app_length, !map_length. Qed.
+Lemma nth_stack1_top (M : list (list R)) f11 f12 f21 f22 i : (i < length M)%nat ->
+  nth i (stack1 RA f11 f12 f21 f22 M) [] = map f11 (nth i M []) ++ map f12 (nth i M []).
+Proof. intros Hi. unfold stack1. rewrite app_nth1 by (now rewrite map_length). now rewrite nth_map_d with (d' := []). Qed.
+Lemma nth_stack1_bottom (M : list (list R)) f11 f12 f21 f22 i : (i < length M)%nat ->
+  nth (length M + i) (stack1 RA f11 f12 f21 f22 M) [] = map f21 (nth i M []) ++ map f22 (nth i M []).
+Proof.
+  intros Hi. unfold stack1. rewrite app_nth2 by (rewrite map_length; lia'). rewrite map_length.
+  cR. replace (length M + i - length M)%nat with i by lia. now rewrite nth_map_d with (d' := []).
+Qed.
+
+(* THEOREM (linear, growth): measurement equations F y_t + G xi_t + H = 0 at EVERY date *)
+Theorem linear_nonflat_measurement :
+  zeros (vsub RA (matvec RA (negm RA (lin_FF RA Fm)) (y ++ dy))
+                 (vadd RA (matvec RA (lin_GG RA Gm) (xi ++ dxi)) (Hv ++ Hv))) ->
+  forall (t : Z) i, (i < n)%nat ->
+    rdot (nth i Fm []) (vaxpy y dy (IZR t)) + rdot (nth i Gm []) (vaxpy xi dxi (IZR t)) + nth i Hv 0 = 0.
+Proof.
+  intros Hz t i Hi.
+  assert (L1 : length (matvec RA (negm RA (lin_FF RA Fm)) (y ++ dy)) = (n + n)%nat).
+  { unfold matvec, negm, lin_FF. now rewrite !map_length, length_stack1. }
+  assert (L2 : length (matvec RA (lin_GG RA Gm) (xi ++ dxi)) = (n + n)%nat).
+  { unfold matvec, lin_GG. rewrite map_length, length_stack1. lia'. }
+  assert (L3 : length (Hv ++ Hv) = (n + n)%nat) by (rewrite app_length; lia').
+  assert (L4 : length (vadd RA (matvec RA (lin_GG RA Gm) (xi ++ dxi)) (Hv ++ Hv)) = (n + n)%nat).
+  { unfold vadd. rewrite length_map2. lia'. }
+  assert (L5 : length (vsub RA (matvec RA (negm RA (lin_FF RA Fm)) (y ++ dy))
+                            (vadd RA (matvec RA (lin_GG RA Gm) (xi ++ dxi)) (Hv ++ Hv))) = (n + n)%nat).
+  { unfold vsub. rewrite length_map2. lia'. }
+  pose proof (Forall_nth_R _ _ i Hz ltac:(lia')) as E0. pose proof (Forall_nth_R _ _ (n + i)%nat Hz ltac:(lia')) as E1.
+  cbv beta in E0, E1.
+  rewrite nth_vsub, nth_vadd, !nth_matvec, nth_negm in E0, E1
+    by (try (unfold negm; rewrite map_length); try (unfold lin_FF, lin_GG; rewrite length_stack1); lia').
+  unfold lin_FF, lin_GG in E0, E1.
+  rewrite !nth_stack1_top in E0 by (cR; fold n; lia).
+  replace (n + i)%nat with (length Gm + i)%nat in E1 at 2 by lia'.
+  unfold n in E1 at 1. rewrite !nth_stack1_bottom in E1 by (cR; fold n; lia).
+  rewrite rdot_opp in E0, E1.
+  rewrite !rdot_app in E0, E1 by (rewrite map_length; first [apply HrowsF|apply HrowsG]; exact Hi).
+  rewrite (rdot_map_lin _ _ _ _ FF11_lin), (rdot_map_lin _ _ _ _ FF12_lin),
+          (rdot_map_lin _ _ _ _ GG11_lin), (rdot_map_lin _ _ _ _ GG12_lin) in E0.
+  rewrite (rdot_map_lin _ _ _ _ FF21_lin), (rdot_map_lin _ _ _ _ FF22_lin),
+          (rdot_map_lin _ _ _ _ GG21_lin), (rdot_map_lin _ _ _ _ GG22_lin) in E1.
+  rewrite app_nth1 in E0 by lia'. rewrite app_nth2 in E1 by lia'. replace (n + i - length Hv)%nat with i in E1 by lia'.
+  rewrite !rdot_vaxpy by lia'.
+  set (p := rdot (nth i Fm []) y) in *. set (r := rdot (nth i Fm []) dy) in *.
+  set (q := rdot (nth i Gm []) xi) in *. set (u := rdot (nth i Gm []) dxi) in *.
+  set (h := nth i Hv 0) in *.
+  assert (Hh : h = - p - q) by lra. assert (Hr : r = - u) by lra. rewrite Hh, Hr. ring.
+Qed.
+
+Theorem linear_flat_measurement :
+  zeros (vsub RA (matvec RA (negm RA Fm) y) (vadd RA (matvec RA Gm xi) Hv)) ->
+  forall i, (i < n)%nat -> rdot (nth i Fm []) y + rdot (nth i Gm []) xi + nth i Hv 0 = 0.
+Proof.
+  intros Hz i Hi.
+  assert (L1 : length (matvec RA (negm RA Fm) y) = n) by (unfold matvec, negm; now rewrite !map_length).
+  assert (L2 : length (matvec RA Gm xi) = n) by (unfold matvec; now rewrite map_length).
+  assert (L4 : length (vadd RA (matvec RA Gm xi) Hv) = n) by (unfold vadd; rewrite length_map2; lia').
+  assert (L5 : length (vsub RA (matvec RA (negm RA Fm) y) (vadd RA (matvec RA Gm xi) Hv)) = n)
+    by (unfold vsub; rewrite length_map2; lia').
+  pose proof (Forall_nth_R _ _ i Hz ltac:(lia')) as E0. cbv beta in E0.
+  rewrite nth_vsub, nth_vadd, !nth_matvec, nth_negm in E0 by (try (unfold negm; rewrite map_length); lia').
+  rewrite rdot_opp in E0. cR. lra.
+Qed.
+
+End Measurement.
+End Linear.
